@@ -200,6 +200,7 @@ mod part_b {
                 // (a) balance + order from the interposer log
                 let mut open_grants: Vec<(u64, u32)> = vec![];
                 let mut open_maps: Vec<(usize, usize)> = vec![];
+                let mut closed_maps: Vec<(usize, usize)> = vec![];
                 let mut windows: Vec<(u64, u64)> = vec![]; // guest file offsets covered
                 for x in xlog {
                     if let XEv::Map { index, count, consecutive, .. } = x {
@@ -231,6 +232,12 @@ mod part_b {
                         Ev::Munmap { addr, len, ret: 0, .. } => {
                             if let Some(p) = open_maps.iter().position(|m| *m == (*addr, *len)) {
                                 open_maps.remove(p);
+                                closed_maps.push((*addr, *len));
+                            } else if closed_maps.iter().any(|(a, l)| *addr < *a + *l && *a < *addr + (*len).max(1)) {
+                                // the window is released ONCE: a second munmap of the same range would,
+                                // with other threads mapping at the same time, tear down whatever the
+                                // kernel has placed there since
+                                v(&format!("ondemand/{}/window-unmapped-twice", op), jobj! {"addr" => *addr, "len" => *len});
                             }
                         }
                         Ev::Ioctl { req, handled: true, .. } if *req == xenemu::IOCTL_GNTDEV_UNMAP_GRANT_REF => {
